@@ -1,9 +1,12 @@
 package upstream
 
 import (
+	"net/http"
 	"net/url"
 	"regexp"
 	"strings"
+
+	middlewareapi "github.com/oauth2-proxy/oauth2-proxy/v7/pkg/apis/middleware"
 
 	"github.com/oauth2-proxy/oauth2-proxy/v7/pkg/apis/options"
 )
@@ -87,3 +90,36 @@ func vh_C17_rewrite_query() {
 }
 
 var _ = regexp.MustCompile
+
+// a rewrite rule changes the path as the rule says and nothing else: percent-escapes the client
+// sent arrive at the upstream as sent (not decoded, not escaped a second time), the query is kept
+// verif: unwind=8 strlen=8
+func vh_C17_rewrite_path() {
+	re := regexp.MustCompile("^/app/(.*)$")
+	var uri, want string
+	switch ndChoice("request", 5) {
+	case 0:
+		uri, want = "/app/hello%20world", "/backend/hello%20world"
+	case 1:
+		uri, want = "/app/caf%C3%A9?x=1", "/backend/caf%C3%A9?x=1"
+	case 2:
+		uri, want = "/app/a%2Fb", "/backend/a%2Fb"
+	case 3:
+		uri, want = "/app/plain/path?q=a%20b", "/backend/plain/path?q=a+b"
+	case 4:
+		uri, want = "/app/", "/backend/"
+	}
+	u, err := url.ParseRequestURI(uri)
+	verifAssume(err == nil)
+	// (known finding: the rule is applied to the decoded path, so an escaped reserved character
+	// such as %2F comes out decoded)
+	verifTag("escaped-slash-in-a-rewritten-path", strings.Contains(uri, "%2F"))
+	req := middlewareapi.AddRequestScope(&http.Request{Method: "GET", RequestURI: uri, URL: u, Header: http.Header{}}, &middlewareapi.RequestScope{})
+	var seen *http.Request
+	rewritePath(re, "/backend/$1", nil, http.HandlerFunc(func(_ http.ResponseWriter, r *http.Request) { seen = r })).ServeHTTP(&vMuxRW{}, req)
+	verifAssert("C17.rewrite.next-called", seen != nil)
+	if seen != nil {
+		verifAssert("C17.rewrite.request-uri-as-the-rule-says", seen.RequestURI == want)
+	}
+	verifReach("end")
+}
